@@ -279,3 +279,11 @@ func (c *Ctx) PickI64(label string, vals ...int64) int64 { return vals[c.Pick(la
 
 // PickU64 returns one of the listed values.
 func (c *Ctx) PickU64(label string, vals ...uint64) uint64 { return vals[c.Pick(label, len(vals))] }
+
+// Tier is the tier the driver runs ("quick" or "thorough").
+func Tier() string {
+	if t := os.Getenv("VERIF_TIER"); t != "" {
+		return t
+	}
+	return "quick"
+}
